@@ -547,6 +547,27 @@ func safeLoad() {
 	}
 }
 
+// disagreeingReload: the witness recorded OUTSIDE the property's quantifier (Props/C04.lean
+// onfly_disagreeing_file_loses_slot): chain A = slot 2 -> slot 0; the file says slot 2 now holds an id of bucket B;
+// the on-the-fly reload links slot 2 behind chain B and cuts chain A after it, slot 0 is never re-linked.
+func disagreeingReload(p *pool) {
+	a, b := p.fams[0], p.fams[1]
+	table := make([]ID, MAX)
+	table[0], table[1], table[2] = a[0], b[0], a[1]
+	if !startHistory(table) {
+		return
+	}
+	step(fmt.Sprintf("set 1 %s", idTok(a[2])), "") // chain A becomes 2 -> 0
+	t := liveTable()
+	t[2] = b[1]
+	step(fileLine(false, t), "file")
+	step("load", "load:onfly-disagreeing")
+	q := a[2]
+	out, _ := step("search "+idTok(q), "search:after-disagreeing-reload")
+	key, what := structureDefect()
+	run.Note(fmt.Sprintf("outside the quantifier (recorded, not judged): on-the-fly reload from a .PASSWDS that disagrees with the live table in slot 2: lookup of %q, which slot 0 still holds, answers %q; structure: %s %s", cstrOf(&q), out, key, what))
+}
+
 func attachCases(p *pool) {
 	if !startHistory(randomTable(p, 0)) {
 		return
@@ -577,6 +598,7 @@ func generate() {
 		history(p, i%3, 10+run.R.Intn(31))
 	}
 	malformed(p, nMal)
+	disagreeingReload(p)
 	if run.Thorough() {
 		attachCases(p)
 	}
